@@ -374,3 +374,11 @@ func framesElidedNonEmpty(c *Ctx) (bool, string) {
 	}
 	return true, "isFramesElidedLine accepts only lines compared with non-empty constants"
 }
+
+// constantString returns the string value of an SSA constant.
+func constantString(k *ssa.Const) (string, bool) {
+	if k == nil || k.Value == nil || k.Value.Kind() != constant.String {
+		return "", false
+	}
+	return constant.StringVal(k.Value), true
+}
